@@ -42,6 +42,8 @@ pub enum Req {
     RejectBid { id: String, size: Option<u128> },
     Match { ask_id: String, bid_id: String, price: String, size: u128 },
     Modify(Modify),
+    /// a contract migration (code upgrade hook) with the given MigrateMsg JSON; not an execute request
+    Migrate(Value),
 }
 
 #[derive(Clone, Debug, Default, PartialEq, Eq)]
@@ -70,6 +72,7 @@ impl Req {
             Req::RejectBid { .. } => "reject_bid",
             Req::Match { .. } => "execute",
             Req::Modify(_) => "modify_contract",
+            Req::Migrate(_) => "migrate",
         }
     }
     pub fn to_value(&self) -> Value {
@@ -125,6 +128,7 @@ impl Req {
                 );
                 json!({ "modify_contract": Value::Object(o) })
             }
+            Req::Migrate(v) => v.clone(),
         }
     }
 }
@@ -137,19 +141,29 @@ pub struct Act {
     pub req: Req,
     pub json: String,
     pub msg: ExecuteMsg,
+    /// Some for Req::Migrate: the request goes to the migrate entry point instead
+    pub migrate: Option<ats_smart_contract::msg::MigrateMsg>,
 }
 
 impl Act {
     pub fn new(sender: &str, funds: Vec<(u128, &str)>, req: Req) -> Act {
         let json = req.to_value().to_string();
-        let msg = parse_execute(&json)
-            .unwrap_or_else(|e| panic!("alphabet request does not parse as ExecuteMsg: {json}: {e}"));
+        let migrate = match &req {
+            Req::Migrate(_) => Some(crate::chain::parse_migrate(&json).unwrap_or_else(|e| panic!("migrate message does not parse: {json}: {e}"))),
+            _ => None,
+        };
+        let msg = if migrate.is_some() {
+            parse_execute(r#"{"cancel_ask":{"id":""}}"#).unwrap()
+        } else {
+            parse_execute(&json).unwrap_or_else(|e| panic!("alphabet request does not parse as ExecuteMsg: {json}: {e}"))
+        };
         Act {
             sender: sender.to_string(),
             funds: funds.into_iter().map(|(a, d)| cosmwasm_std::coin(a, d)).collect(),
             req,
             json,
             msg,
+            migrate,
         }
     }
     pub fn with_sender(&self, s: &str) -> Act {
@@ -167,6 +181,9 @@ impl Act {
         format!("{} [{}] {}", self.sender, f.join(","), self.json)
     }
     pub fn to_replay(&self) -> Value {
+        if self.migrate.is_some() {
+            return json!({"op": "execute", "kind": "migrate", "sender": self.sender, "funds": [], "msg": serde_json::from_str::<Value>(&self.json).unwrap()});
+        }
         json!({"op": "execute", "sender": self.sender,
             "funds": self.funds.iter().map(|c| json!({"denom": c.denom, "amount": c.amount.to_string()})).collect::<Vec<_>>(),
             "msg": serde_json::from_str::<Value>(&self.json).unwrap()})
@@ -314,6 +331,8 @@ pub struct Menu {
     pub modifies: Vec<(&'static str, Modify)>,
     /// quote denominations offered (empty = the first supported one)
     pub quotes: Vec<&'static str>,
+    /// migrations (MigrateMsg JSON) that are part of L: the contract is upgraded in place mid-history
+    pub migrates: Vec<(&'static str, Value)>,
 }
 
 fn exact_total(price: &str, size: u128) -> Option<u128> {
@@ -478,6 +497,9 @@ pub fn alphabet_l(cfg: &Cfg, m: &Menu) -> Vec<Act> {
     for (_, md) in &m.modifies {
         v.push(Act::new(exec, vec![], Req::Modify(md.clone())));
     }
+    for (_, mg) in &m.migrates {
+        v.push(Act::new("admin", vec![], Req::Migrate(mg.clone())));
+    }
     v
 }
 
@@ -490,6 +512,10 @@ pub struct Scenario {
     /// raw storage writes applied after instantiate (legacy / old-format seeds)
     pub seed: Vec<(Vec<u8>, Vec<u8>)>,
     pub menu: Menu,
+    /// the book was carried over from an earlier contract version: after the seeds, the version
+    /// record is set to this value and `migrate` runs once with this message; the exploration
+    /// starts from the migrated state
+    pub pre_migrate: Option<(String, Value)>,
 }
 
 // ---------------------------------------------------------------------------------------------
@@ -549,6 +575,9 @@ impl Req {
 impl Act {
     pub fn from_replay(v: &Value) -> Option<Act> {
         let sender = vs(v, "sender")?;
+        if v.get("kind").and_then(|k| k.as_str()) == Some("migrate") {
+            return Some(Act::new(&sender, vec![], Req::Migrate(v.get("msg")?.clone())));
+        }
         let req = Req::from_value(v.get("msg")?)?;
         let funds: Vec<(u128, String)> = v
             .get("funds")?
@@ -562,6 +591,13 @@ impl Act {
 
 impl Cfg {
     /// the closed system of a replay file
+    pub fn setup_value_pm(&self, seed: &[(Vec<u8>, Vec<u8>)], pre_migrate: &Option<(String, Value)>) -> Value {
+        let mut v = self.setup_value(seed);
+        if let Some((ver, msg)) = pre_migrate {
+            v["pre_migrate"] = json!({"stored_version": ver, "migrate": msg});
+        }
+        v
+    }
     pub fn setup_value(&self, seed: &[(Vec<u8>, Vec<u8>)]) -> Value {
         let mk = |m: crate::chain::Marker| match m {
             crate::chain::Marker::Restricted => "restricted",
@@ -613,5 +649,13 @@ impl Cfg {
             seed.push((a.first()?.as_str()?.as_bytes().to_vec(), a.get(1)?.as_str()?.as_bytes().to_vec()));
         }
         Some((cfg, seed))
+    }
+}
+
+/// Execute one alphabet request (an execute request, or a migration) on a copy of `store`.
+pub fn step_act(store: &crate::chain::Store, chain: &Chain, act: &Act) -> crate::chain::Outcome {
+    match &act.migrate {
+        Some(m) => crate::chain::do_migrate(store, chain, m),
+        None => crate::chain::step(store, chain, &act.sender, &act.funds, &act.msg),
     }
 }
